@@ -173,7 +173,7 @@ pub fn check_case(case: &CtxCase, legs: &[LegSpec], rep: &mut Report) {
 }
 
 pub fn run(ctx: &Ctx) -> Report {
-    let n = ctx.cases(4000, 300_000);
+    let n = ctx.cases(40_000, 3_000_000);
     let thorough = ctx.is_thorough();
     crate::par_cases(ctx, 3, n, |rng, _i, rep| {
         let case = ctxgen::gen_case(rng);
